@@ -83,6 +83,10 @@ def run(F, R):
     from .C03 import e3_capacity
     for add_id in pubs:
         e3_capacity(F, R, M, add_id, rule='F8', rule1='F8')
+    # F9: the device address written into each element is the one valid for the negotiated platform-access mode:
+    # every share (and the matching unshare) receives the queue's one access-platform field (shared with C04.P9)
+    from .C04 import p9_platform_flag
+    p9_platform_flag(F, R, M, rule='F9')
     # F7: no descriptor in two outstanding chains - necessary condition on the release path (shared with C03.E6)
     from .C03 import e6_relink
     from . import C05 as _c5
